@@ -327,6 +327,12 @@ class SpecEval:
             return SV(S.off(self.ev(args[0]).t), 'int')
         if name in ('allocated', 'fresh', 'alloc_ok'):
             v = self.ev(args[0])
+            if z3.is_expr(v.t) and v.t.sort() == S:
+                a = S.arr(v.t)
+                top = self.heap.get(('alloc', 'arr'))
+                if name == 'fresh':
+                    return SV(z3.And(a > self.old.get(('alloc', 'arr')), a <= top), 'bool')
+                return SV(z3.And(a >= (1 if name == 'allocated' else 0), a <= top), 'bool')
             key = self.alloc_key(v.ty)
             if name == 'allocated':
                 return SV(z3.And(v.t >= 1, v.t <= self.heap.get(key)), 'bool')
